@@ -273,7 +273,7 @@ func c42Processes(c *rig.Ctx) {
 		"nbs.NewBSStore handle on one LocalBlobstore; histories merged by CLOCK_MONOTONIC and checked as above")
 	orders := map[string]bool{}
 	wins := 0
-	n := c.Pick(5, 120)
+	n := c.Pick(4, 120)
 	for i := 0; i < n; i++ {
 		// raw blobstore
 		r := c.SubRand("c42/local-processes", i)
@@ -780,6 +780,13 @@ func (g *gitRig) instance(maxPart uint64) (*blobstore.GitBlobstore, error) {
 	return blobstore.NewGitBlobstoreWithOptions(local, "refs/dolt/data", blobstore.GitBlobstoreOptions{MaxPartSize: maxPart, SyncForReadTTL: time.Nanosecond})
 }
 
+func c42GitBig(c *rig.Ctx) []int {
+	if c.Thorough() {
+		return []int{40, 1000, 100000}
+	}
+	return []int{40}
+}
+
 func c42Git(c *rig.Ctx) {
 	c.Rule("git-backed blobstore against a local bare 'remote' repository (offline): each client owns a GitBlobstore with its own cache repository; " +
 		"CheckAndPutManifest/Get histories checked as a CAS register keyed by version (blob id); ranged Gets (inline and chunked representation) " +
@@ -838,7 +845,7 @@ func c42Git(c *rig.Ctx) {
 			var gb *blobstore.GitBlobstore
 			gb, err = g.instance(mode.part)
 			if err == nil {
-				rangeAndConcat(c, mode.name, gb, r, []int{0, 1, 3, 13}, int64(c.Pick(1, 5)), c.Pick(12, 150), []int{40, 1000}, []int{3}, &rs)
+				rangeAndConcat(c, mode.name, gb, r, []int{0, 3, 13}, int64(c.Pick(0, 5)), c.Pick(9, 150), c42GitBig(c), []int{3}, &rs)
 			}
 		}
 		if err != nil {
